@@ -9,6 +9,6 @@ d = json.loads(json.dumps(to_dict(model)))
 print(d["arguments"]["centre"])
 try:
     from_dict(d)
-    raise AssertionError("reload worked (defect repaired?)")
+    print("no violation: the files can be read back (repaired in /repo)")
 except TypeError as e:
     print("VIOLATION: the identifier cannot be recomputed from the fit's files:", e)
